@@ -671,11 +671,13 @@ impl LockFreePool {
             
             // Lock-free compare-exchange loop
             loop {
+                verif_point!("fl.alloc.load", bin_index);
                 let current_head = head.head.load(Ordering::Acquire);
                 if current_head == u32::MAX {
                     break; // No free blocks
                 }
                 
+                verif_point!("fl.alloc.next", bin_index, current_head);
                 // Get next pointer from the free block
                 let next_head = unsafe {
                     let memory = self.memory.lock()
@@ -684,6 +686,7 @@ impl LockFreePool {
                     *ptr
                 };
                 
+                verif_point!("fl.alloc.cas", bin_index, current_head);
                 // Try to update head atomically
                 match head.head.compare_exchange_weak(
                     current_head,
@@ -704,6 +707,7 @@ impl LockFreePool {
             }
         }
 
+        verif_point!("fl.alloc.fallback", size);
         // Fall back to mutex allocation
         let mut memory = self.memory.lock()
             .map_err(|e| ZiporaError::resource_busy(format!("Memory mutex poisoned: {}", e)))?;
@@ -724,6 +728,7 @@ impl LockFreePool {
             
             // Lock-free insertion
             loop {
+                verif_point!("fl.free.load", bin_index, offset.0);
                 let current_head = head.head.load(Ordering::Acquire);
 
                 // Write next pointer into freed block
@@ -734,6 +739,7 @@ impl LockFreePool {
                     *ptr = current_head;
                 }
                 
+                verif_point!("fl.free.cas", bin_index, offset.0);
                 // Try to update head atomically
                 match head.head.compare_exchange_weak(
                     current_head,
